@@ -1830,6 +1830,10 @@ pub(crate) fn resolve_temp_id(id: &str) -> Option<usize> {
 /// Generate an ID with a random 21-byte and ID/URI-safe component
 /// This does no collision check (but they will be *extremely* unlikely)
 pub fn generate_id(prefix: &str, suffix: &str) -> String {
+    #[cfg(stam_verif)]
+    if let Some(id) = crate::verif_hooks::generated_id(prefix, suffix) {
+        return id;
+    }
     format!("{}{}{}", prefix, nanoid!(ID_LEN, &ID_ALPHABET), suffix)
 }
 
